@@ -45,4 +45,9 @@ CLAIMS = {
         "note": "Trusted: ASE setter/getter/delete semantics (table validated against the installed ASE source each run); reinsert_atoms inverts deletion (C19); atoms appended in the current trial are unconstrained. Not decided: bit equality of contents beyond 'restored from a copy of the pre-trial value'; user check_move callables that mutate atoms. Constraint loss on rejected deletion is a listed known finding.",
         "technique": "path-sensitive effect/typestate analysis (abstract heap with version terms, alias vs copy), exhaustive over abstract paths of each scenario",
     },
+    "C04": {
+        "text": "Same path-sensitive abstract heap as C03, extended with the calculator: calc.results / calc.atoms are components and every energy read is interpreted with ASE's cache rule (hit iff calc.atoms equals the live atoms on positions/cell/numbers, else results replaced and recomputed; validated against the installed ASE source). For every driver × move-table scenario and abstract path, after each accepted/rejected/failed trial: results never attributed to another configuration (also at every cached read), reference energy / remembered results / positions / cell are those of the current configuration, and — Hamiltonian moves apart — exactly one evaluation per trial reaching its criteria, none for a failed one, with a coherent cache afterwards. The per-trial invariants are inductive, so the claim covers all histories.",
+        "note": "Trusted: ASE's Calculator.get_property/compare_atoms semantics as summarised (validated each run). Not decided: calculators with hidden internal state (neighbour lists), numbers of force calls inside an integrator. One genuine defect found by this check was repaired (stale results after a vetoed Hamiltonian attempt inside a composite).",
+        "technique": "path-sensitive effect/typestate analysis with a calculator-cache model, exhaustive over abstract paths of each scenario",
+    },
 }
